@@ -492,6 +492,72 @@ def run(chk):
     chk.oracle('glycan_additive', gpairs, o_glycan_additive, nontrivial_fn=lambda c: len(c[0]) >= 1 and len(c[1]) >= 1, key_fn=repr)
 
     chk.oracle('glycan_roundtrip_linear', glys if big else glys[::2], o_glycan, nontrivial_fn=lambda g: len(g) >= 2, key_fn=repr)
+    # ------------------------------------------------------------ history / aliasing (see harness/statecheck_c15.py)
+    from .. import statecheck_c15 as SC
+    hist = SC.History()
+    nstate = 400 if not big else 4000
+    plain_common = ['C', 'H', 'N', 'O', 'S', 'P', 'Na', 'Cl', 'Se', 'Fe']
+    fstrings = ['C6H12O6', 'H2O', 'C2H3NO', 'CH2', 'C6H12O6N2H2', 'C10[13C6]H12O6', 'C-1H2e-1']
+    for _ in range(nstate):
+        if rng.random() < 0.6:  # bracket-free formulas (a single component) as well as mixed ones
+            d = {k: gen_count(zero_ok=False) for k in rng.sample(plain_common, rng.randint(1, 4))}
+        else:
+            d = {k: v for k, v in gen_comp(5).items() if k != ''}
+        if all(positional(v) for v in d.values()):
+            fstrings.append(pt.write_chem_formula(d, '', rng.random() < 0.5))
+    fstrings = [f for f in dict.fromkeys(fstrings) if f]
+    gstrings = []
+    for g in glys[:nstate]:
+        if g and all(positional(v) for v in g.values()):
+            gstrings.append((pt.write_glycan_formula(g), {k: v for k, v in g.items()}))
+
+    def fdict(f):
+        try:
+            return pt.parse_chem_formula(f)
+        except Exception:  # noqa
+            return {}
+
+    iso_sets = [['13C'], ['15N'], ['D'], ['13C', '15N'], ['18O']]
+    iso_cases = []
+    mix_cases = []
+    for f in fstrings:
+        d = fdict(f)
+        refs = [['parse_chem_formula', [f, '']], ['chem_mass', [f, True, '']], ['chem_mass', [f, False, '']]]
+        others = [['apply_isotope_mods_to_composition', [f, rng.choice(iso_sets)]],
+                  ['apply_isotope_mods_to_composition', [d, rng.choice(iso_sets)]],
+                  ['write_chem_formula', [d, '', True]], ['write_chem_formula', [d, ' ', False]], ['chem_mass', [d, True, '']],
+                  ['mod_comp', ['Formula:' + f]], ['mod_mass', ['Formula:' + f, True]], ['mod_mass', ['Formula:' + f + '|INFO:x', False]],
+                  ['parse_chem_formula', [f + 'N2H2', '']], ['parse_chem_formula', [pt.write_chem_formula(d, '|'), '|']]]
+        mix_cases.append((refs, others))
+        iso_cases += [refs[0], others[0], others[1], others[4], others[5]]
+    for w, g in gstrings:
+        refs = [['parse_glycan_formula', [w, '']], ['glycan_comp', [w]], ['glycan_mass', [w, True]]]
+        others = [['glycan_comp', [g]], ['glycan_mass', [g, False]], ['glycan_to_chem', [w]], ['write_glycan_formula', [g, '']],
+                  ['mod_comp', ['Glycan:' + w]], ['mod_mass', ['Glycan:' + w, True]], ['parse_glycan_formula', [w + 'Hex2', '']],
+                  ['estimate_comp', [1000.0]]]
+        mix_cases.append((refs, others))
+        iso_cases += [refs[0], refs[1], others[0], others[4]]
+    chk.count('state_isolation_calls', len(iso_cases))
+    chk.count('state_interleavings', len(mix_cases))
+
+    def o_isolation(call):
+        r = SC.isolation(call, hist)
+        return None if r is None else json.dumps(r, default=str)
+
+    def o_interleave(c):
+        r = SC.interleave(rng, c[0], c[1], hist, steps=6)
+        return None if r is None else json.dumps(r, default=str)
+
+    chk.oracle('result_isolation', iso_cases, o_isolation, nontrivial_fn=lambda c: True, key_fn=lambda c: json.dumps(c, default=str))
+    chk.oracle('interleaved_calls', mix_cases, o_interleave, nontrivial_fn=lambda c: True,
+               key_fn=lambda c: json.dumps(c[0][0], default=str))
+    # whole-run history: the earliest answers again, and a sample against a fresh interpreter
+    try:
+        late = hist.recheck_in_process(300 if not big else 2000) + hist.compare_with_fresh_process(rng, 300 if not big else 2000)
+    except RuntimeError as e:
+        raise core.InfraError(str(e))
+    chk.oracle('whole_run_history', late, lambda it: None if it[1] is None else json.dumps(it[1], default=str),
+               nontrivial_fn=lambda it: True, key_fn=lambda it: json.dumps(it[0], default=str))
     lap('oracle')
     rep = reach.stop()
     if rep is not None:
